@@ -78,6 +78,9 @@ def _child(mod, shard, outfile):
 
     try:
         faulthandler.dump_traceback_later(shard.get("wall_limit_s", 900) + 30, exit=True)
+        # the code under test prints diagnostics (e.g. printStack before InvalidEngineState): keep them off our stdout
+        devnull = os.open(os.devnull, os.O_WRONLY)
+        os.dup2(devnull, 1)
         t0 = time.time()
         res = mod.run_shard(shard)
         res.setdefault("shard", shard.get("name"))
@@ -371,6 +374,7 @@ def write_replay(prop, v, seed):
     doc["property"] = prop
     doc["expected_signature"] = v.get("signature")
     doc["summary"] = v.get("summary")
+    doc["match"] = v.get("match")
     doc.setdefault("found_by", {})["VERIF_SEED"] = seed
     name = "%s-%s.json" % ("".join(c if c.isalnum() else "_" for c in str(v.get("signature")))[:60], digest(doc))
     path = os.path.join(d, name)
